@@ -469,6 +469,18 @@ func judge(r *rep.Report, w *world, run []op, ev map[string]interface{}, former 
 				r.Violate("", fmt.Sprintf("ProcessEvent produced %d action values, expected %d (one action per rule and binding)", len(fr.Values), nexec), wit())
 			}
 			// the same event submitted by a script (as a rule action would) reaches the same rules
+			// (not compared when a stored rule has a repeated variable: over structured values the
+			// matcher's answer for such a pattern varies from call to call, a listed finding)
+			for _, m := range []*ref.Loc{w.mc, w.mp} {
+				if m == nil {
+					continue
+				}
+				for id := range m.Items {
+					if wh := w.whenOf(id); wh != nil && ref.HasRepeatedVar(wh, nil) {
+						return
+					}
+				}
+			}
 			ej, _ := json.Marshal(ev)
 			x, jerr := w.child.RunJavascript(drv.Ctx(), "var w = Env.ProcessEvent("+string(ej)+"); var ids = []; for (var i = 0; i < w.Children.length; i++) { ids.push(w.Children[i].Rule.Id); }; ids.sort(); JSON.stringify([ids, w.Values.length])", nil, nil, nil)
 			r.Count("events_submitted_by_a_script", 1)
